@@ -11,7 +11,7 @@ func init() {
 		Jobs: func(tier string) []*Job {
 			js := []*Job{mk("modes-top-full-k1", "VerifModesTop", 1, "every text of <=1 fragment from the full alphabet (~130 fragments incl. `x.`, `Foo.`, `[1].`, an empty string literal), with/without trailing newline")}
 			cm := mk("corpus-modes", "VerifCorpusModes", 0, "the repository's example programs (/repo/test/*.rb with a plain invocation and at most 60 lines; quick tier: a sample of 40 chosen by VERIF_SEED, thorough tier: all)")
-			cm.Config, cm.Budget = "", 400000000
+			cm.Config, cm.Budget = "", 40000000
 			cm.Bound = strings.Replace(cm.Bound, "; core configuration subset", "; full shipped test configuration", 1)
 			js = append(js, cm)
 			if tier == "thorough" {
